@@ -22,7 +22,7 @@ static const bool SAN = false;
 enum OpK { OP_COPY, OP_ADD, OP_SUB, OP_MUL };
 enum Kind { K_NONE, K_SCALAR, K_REG, K_ARR_UNIT, K_ARR_STRIDE, K_ARR_IDX };
 struct TB {
-    E *c; const E *a, *b; E as, bs; uint64_t sa, sb, sc; uint64_t ia[8], ib[8], ic[8];
+    E *c; const E *a, *b; E as, bs; const E *pas, *pbs; uint64_t sa, sb, sc; uint64_t ia[8], ib[8], ic[8]; // (pas/pbs: where the scalar argument lives)
 };
 struct T4 : TB { __m256i creg, areg, breg; };
 #ifdef __AVX512__
@@ -58,22 +58,75 @@ static void fill_input(Operand &o, const uint64_t *vals, uint64_t junk)
     if (o.k < K_ARR_UNIT) return;
     // exact extent: the arena ends at a guard page (ASan build: exact-size malloc): one element past the last designated cell faults
     o.gb.alloc(o.size * sizeof(E)); o.arena = o.gb.as<E>(); o.guarded = true;
-    for (uint64_t i = 0; i < o.size; i++) o.arena[i].fe = pbt::mix(junk, i);
+    if (!o.gb.sparse) for (uint64_t i = 0; i < o.size; i++) o.arena[i].fe = pbt::mix(junk, i);
+    else for (int k = 0; k < o.L; k++) for (int d = -1; d <= 1; d++) { uint64_t i = o.pos[k] + (uint64_t)d; if (i < o.size) o.arena[i].fe = pbt::mix(junk, i); } // huge extent: junk next to the designated cells only
     for (int k = 0; k < o.L; k++) o.arena[o.pos[k]].fe = vals[k];
     for (int k = 0; k < o.L; k++) o.eff[k] = o.arena[o.pos[k]].fe; // repeated positions: the last write wins
 }
+// is the scalar operand (which: 0 = first input, 1 = second input) of this overload declared by value?
+static bool scalar_by_value(const Row &r, int which)
+{
+    std::string d = r.decl; size_t lp = d.find('('), rp = d.rfind(')'); if (lp == std::string::npos || rp == std::string::npos) return false;
+    std::vector<std::string> ps; { std::string cur; for (size_t i = lp + 1; i < rp; i++) { if (d[i] == ',') { ps.push_back(cur); cur.clear(); } else cur += d[i]; } ps.push_back(cur); }
+    // parameters that are not strides/offsets: result first, then the inputs in order
+    std::vector<std::string> ops; for (auto &q : ps) if (q.find("uint64_t") == std::string::npos) ops.push_back(q);
+    if ((int)ops.size() < which + 2) return false;
+    const std::string &q = ops[which + 1];
+    return q.find('&') == std::string::npos && q.find('*') == std::string::npos && q.find('[') == std::string::npos && q.find("Element") != std::string::npos;
+}
 static uint64_t ref_op(OpK op, uint64_t a, uint64_t b) { return op == OP_COPY ? a % PR : op == OP_ADD ? ref::add(a, b) : op == OP_SUB ? ref::sub(a, b) : ref::mul(a, b); }
 
+// form: 0 separate buffers; 1 both array inputs are given by the SAME base pointer (one array, two strides / index lists);
+//       2 the output array is the first input array (same designated positions: lane-wise in place);
+//       3 a by-value scalar argument is passed as an lvalue that lives in one of the designated output cells;
+//       4 the output array has its exact extent and ends at an inaccessible page (instead of sentinel cells after it)
+static int form_of(const Row &r, const Case &c)
+{
+    int f = (int)((c.v[P_JUNK] >> 40) % 8); if (f > 4) f = 0;
+    const bool big = (r.A == K_ARR_STRIDE && c.v[P_SA] >= (1ull << 32)) || (r.B == K_ARR_STRIDE && c.v[P_SB] >= (1ull << 32)) || (r.C == K_ARR_STRIDE && c.v[P_SC] >= (1ull << 32));
+    if (big) return 0;
+    if (f == 1 && !(r.A >= K_ARR_UNIT && r.B >= K_ARR_UNIT)) f = 0;
+    if (f == 2) {
+        if (!(r.A >= K_ARR_UNIT && r.C == r.A)) f = 0;
+        else if (r.A == K_ARR_STRIDE && (c.v[P_SA] == 0 || c.v[P_SA] != c.v[P_SC])) f = 0;
+        else if (r.A == K_ARR_IDX) { for (int i = 0; i < r.L; i++) { if (c.v[P_IA + i] != c.v[P_IC + i]) f = 0; for (int j = 0; j < i; j++) if (c.v[P_IA + i] == c.v[P_IA + j]) f = 0; } }
+    }
+    if (f == 3 && !(r.C >= K_ARR_UNIT && ((r.A == K_SCALAR && scalar_by_value(r, 0)) || (r.B == K_SCALAR && scalar_by_value(r, 1))))) f = 0;
+    if (f == 4 && r.C < K_ARR_UNIT) f = 0;
+    return f;
+}
 static bool run_row(const Row &r, const Case &c, uint64_t junk, std::vector<uint64_t> &outlanes, std::string &why, bool probe_statics = false)
 {
     const int L = r.L;
+    const int form = form_of(r, c);
     Operand A, B, C; A.k = r.A; B.k = r.B; C.k = r.C; A.L = B.L = C.L = L;
     positions(A, c.v[P_SA], &c.v[P_IA]); positions(B, c.v[P_SB], &c.v[P_IB]); positions(C, c.v[P_SC], &c.v[P_IC]);
+    if (form == 1) {
+        // one array serves both inputs: filled with junk, then the a-values, then the b-values (a cell designated by both holds the b-value)
+        uint64_t sz = std::max(A.size, B.size); A.size = sz;
+        A.gb.alloc(sz * sizeof(E)); A.arena = A.gb.as<E>(); A.guarded = true;
+        for (uint64_t i = 0; i < sz; i++) A.arena[i].fe = pbt::mix(junk, i);
+        for (int k = 0; k < L; k++) A.arena[A.pos[k]].fe = c.v[P_AV + k];
+        for (int k = 0; k < L; k++) A.arena[B.pos[k]].fe = c.v[P_BV + k];
+        A.eff.resize(L); B.eff.resize(L);
+        for (int k = 0; k < L; k++) { A.eff[k] = A.arena[A.pos[k]].fe; B.eff[k] = A.arena[B.pos[k]].fe; }
+        B.arena = A.arena; B.guarded = true; B.size = 0; // (B does not own the storage; the modification check below runs over A)
+    } else {
     fill_input(A, &c.v[P_AV], junk); fill_input(B, &c.v[P_BV], junk ^ 0xB);
+    }
     std::vector<uint64_t> a0, b0;
-    if (A.arena) { a0.resize(A.size); for (uint64_t i = 0; i < A.size; i++) a0[i] = A.arena[i].fe; }
-    if (B.arena) { b0.resize(B.size); for (uint64_t i = 0; i < B.size; i++) b0[i] = B.arena[i].fe; }
-    const uint64_t guard = SAN ? 0 : 8;
+    if (A.arena && !A.gb.sparse) { a0.resize(A.size); for (uint64_t i = 0; i < A.size; i++) a0[i] = A.arena[i].fe; }
+    if (B.arena && !B.gb.sparse) { b0.resize(B.size); for (uint64_t i = 0; i < B.size; i++) b0[i] = B.arena[i].fe; }
+    uint64_t guard = SAN ? 0 : 8;
+    const bool csparse = C.k >= K_ARR_UNIT && C.size * sizeof(E) >= ((size_t)1 << 26);
+    if (csparse) { // huge output stride: sparse mapping ending at a guard page; sentinels next to the designated cells
+        guard = 0; C.gb.alloc(C.size * sizeof(E)); C.arena = C.gb.as<E>(); C.guarded = true;
+        for (int k = 0; k < L; k++) for (int d = -2; d <= 2; d++) { uint64_t i = C.pos[k] + (uint64_t)d; if (i < C.size) C.arena[i].fe = SENT + i; }
+    } else if (form == 2) {
+        C.arena = A.arena; C.guarded = true; guard = 0; // in place: the designated cells are replaced, every other cell keeps its junk
+    } else if (form == 4) {
+        guard = 0; C.gb.alloc(C.size * sizeof(E)); C.arena = C.gb.as<E>(); C.guarded = true; for (uint64_t i = 0; i < C.size; i++) C.arena[i].fe = SENT + i;
+    } else
     if (C.k >= K_ARR_UNIT) { C.arena = (E *)malloc((C.size + guard) * sizeof(E)); for (uint64_t i = 0; i < C.size + guard; i++) C.arena[i].fe = SENT + i; }
 #ifdef __AVX512__
     T8 t8;
@@ -83,7 +136,11 @@ static bool run_row(const Row &r, const Case &c, uint64_t junk, std::vector<uint
 #ifdef __AVX512__
     if (L == 8) t = &t8;
 #endif
-    t->c = C.arena; t->a = A.arena; t->b = B.arena; t->as.fe = c.v[P_AV]; t->bs.fe = c.v[P_BV];
+    t->c = C.arena; t->a = A.arena; t->b = B.arena; t->as.fe = c.v[P_AV]; t->bs.fe = c.v[P_BV]; t->pas = &t->as; t->pbs = &t->bs;
+    if (form == 3) { // the scalar argument expression is an element of the result array (legal for a by-value parameter: its value is taken at the call)
+        E *cell = &C.arena[C.pos[(junk >> 8) % L]];
+        if (r.A == K_SCALAR && scalar_by_value(r, 0)) { cell->fe = c.v[P_AV]; t->pas = cell; } else { cell->fe = c.v[P_BV]; t->pbs = cell; }
+    }
     t->sa = c.v[P_SA]; t->sb = c.v[P_SB]; t->sc = c.v[P_SC];
     for (int k = 0; k < 8; k++) { t->ia[k] = c.v[P_IA + k]; t->ib[k] = c.v[P_IB + k]; t->ic[k] = c.v[P_IC + k]; }
     alignas(64) uint64_t la[8], lb[8], lc[8];
@@ -113,13 +170,20 @@ static bool run_row(const Row &r, const Case &c, uint64_t junk, std::vector<uint
         uint64_t want = ref_op(r.op, A.eff[k], r.B == K_NONE ? 0 : B.eff[k]);
         if (outlanes[k] % PR != want) { why = "lane " + std::to_string(k) + ": got " + hx(outlanes[k]) + " want " + hx(want) + " (a=" + hx(A.eff[k]) + (r.B == K_NONE ? "" : " b=" + hx(B.eff[k])) + ")"; return false; }
     }
-    if (C.arena) {
+    if (C.arena && csparse) {
+        for (int k = 0; k < L; k++) for (int d = -2; d <= 2; d++) { uint64_t i = C.pos[k] + (uint64_t)d; bool des = false; for (int q = 0; q < L; q++) if (C.pos[q] == i) des = true;
+            if (i < C.size && !des && C.arena[i].fe != SENT + i) { why = "wrote output position " + std::to_string(i) + " which its strides do not designate"; return false; } }
+    } else if (C.arena && form == 2) {
+        std::vector<bool> des(C.size, false);
+        for (int k = 0; k < L; k++) des[C.pos[k]] = true;
+        for (uint64_t i = 0; i < C.size; i++) if (!des[i] && C.arena[i].fe != a0[i]) { why = "in-place call changed array position " + std::to_string(i) + " which its strides do not designate"; return false; }
+    } else if (C.arena) {
         std::vector<bool> des(C.size + guard, false);
         for (int k = 0; k < L; k++) des[C.pos[k]] = true;
         for (uint64_t i = 0; i < C.size + guard; i++) if (!des[i] && C.arena[i].fe != SENT + i) { why = "wrote output position " + std::to_string(i) + " which its strides do not designate"; return false; }
     }
-    if (A.arena) for (uint64_t i = 0; i < A.size; i++) if (A.arena[i].fe != a0[i]) { why = "modified its first input operand"; return false; }
-    if (B.arena) for (uint64_t i = 0; i < B.size; i++) if (B.arena[i].fe != b0[i]) { why = "modified its second input operand"; return false; }
+    if (A.arena && !A.gb.sparse && form != 2) for (uint64_t i = 0; i < A.size; i++) if (A.arena[i].fe != a0[i]) { why = form == 1 ? "modified its input array" : "modified its first input operand"; return false; }
+    if (B.arena && !B.gb.sparse) for (uint64_t i = 0; i < B.size; i++) if (B.arena[i].fe != b0[i]) { why = "modified its second input operand"; return false; }
     return true;
 }
 static const char *KN[] = {"-", "scalar", "register", "array", "array+stride", "array+index"};
@@ -129,15 +193,17 @@ static bool body_row(const Case &c, Ctx &ctx)
     ctx.cls(r.decl);
     bool nt = false;
     auto st = [&](Kind k, uint64_t s, const uint64_t *idx, bool out) {
-        if (k == K_ARR_STRIDE && s != 1 && s != 3) { nt = true; ctx.cls(s == 0 ? "shape:stride-0" : s >= 61 ? "shape:large-stride" : "shape:stride-not-1-or-3"); }
+        if (k == K_ARR_STRIDE && s != 1 && s != 3) { nt = true; ctx.cls(s == 0 ? "shape:stride-0" : s >= (1ull << 32) ? "shape:stride>=2^32" : s >= 61 ? "shape:large-stride" : "shape:stride-not-1-or-3"); }
         if (k == K_ARR_IDX) { bool id = true, rep = false; for (int i = 0; i < r.L; i++) { if (idx[i] != (uint64_t)i) id = false; for (int j = 0; j < i; j++) if (idx[i] == idx[j]) rep = true; }
             if (!id) { nt = true; ctx.cls(rep ? "shape:index-array-with-repeats" : out ? "shape:permuted/sparse-output-index" : "shape:permuted/sparse-input-index"); } }
     };
     st(r.A, c.v[P_SA], &c.v[P_IA], false); st(r.B, c.v[P_SB], &c.v[P_IB], false); st(r.C, c.v[P_SC], &c.v[P_IC], true);
     for (int k = 0; k < r.L; k++) if (c.v[P_AV + k] >= PR || c.v[P_BV + k] >= PR) { nt = true; ctx.cls("shape:non-canonical-operand"); break; }
+    { static const char *FN[] = {nullptr, "form:both-inputs-one-array(same-pointer)", "form:output-array-is-first-input(in-place)", "form:by-value-scalar-lives-in-an-output-cell", "form:exact-output-extent-at-guard-page"};
+      int f = form_of(r, c); if (f) { nt = true; ctx.cls(FN[f]); } }
     ctx.nontrivial = nt;
     std::vector<uint64_t> o1, o2; std::string why;
-    if (!run_row(r, c, c.v[P_JUNK], o1, why, true)) return ctx.fail(std::string(r.decl) + " [A=" + KN[r.A] + " B=" + KN[r.B] + " -> " + KN[r.C] + "] sa=" + std::to_string(c.v[P_SA]) + " sb=" + std::to_string(c.v[P_SB]) + " sc=" + std::to_string(c.v[P_SC]) + ": " + why);
+    if (!run_row(r, c, c.v[P_JUNK], o1, why, true)) return ctx.fail(std::string(r.decl) + " [A=" + KN[r.A] + " B=" + KN[r.B] + " -> " + KN[r.C] + "] sa=" + std::to_string(c.v[P_SA]) + " sb=" + std::to_string(c.v[P_SB]) + " sc=" + std::to_string(c.v[P_SC]) + " form=" + std::to_string(form_of(r, c)) + ": " + why);
     // metamorphic: different junk in the non-designated input cells must not change the result
     if (!run_row(r, c, ~c.v[P_JUNK], o2, why)) return ctx.fail(std::string(r.decl) + ": " + why);
     if (o1 != o2) return ctx.fail(std::string(r.decl) + ": result depends on input cells that its strides do not designate");
@@ -180,9 +246,15 @@ static rc::Gen<std::vector<uint64_t>> gen_row_case(std::vector<int> rows)
         for (int k = 0; k < 8; k++) { g::P2 p = *(op == OP_ADD ? g::pair_add() : op == OP_SUB ? g::pair_sub() : op == OP_MUL ? g::pair_mul() : g::pair_indep()); v[P_AV + k] = p.first; v[P_BV + k] = p.second; }
         static const std::vector<uint64_t> SI{0, 1, 2, 3, 4, 5, 7, 61, 1000}, SO{1, 2, 3, 4, 5, 7, 61, 1000};
         v[P_SA] = *rc::gen::elementOf(SI); v[P_SB] = *rc::gen::elementOf(SI); v[P_SC] = *rc::gen::elementOf(SO);
+        // strides that do not fit 32 bits (sparse arenas): an index computed in 32-bit arithmetic lands on another cell
+        if (*g::irange(0, 15) == 0) { int w = *g::irange(0, 2); uint64_t big = (1ull << 32) + (uint64_t)*g::irange(1, 5); if (w == 0) v[P_SA] = big; else if (w == 1) v[P_SB] = big; else v[P_SC] = big; }
         auto ia = *gen_idx(false), ib = *gen_idx(false), ic = *gen_idx(true);
         for (int k = 0; k < 8; k++) { v[P_IA + k] = ia[k]; v[P_IB + k] = ib[k]; v[P_IC + k] = ic[k]; }
         v[P_JUNK] = *g::uni64();
+        // call form (see form_of): chosen here so that the in-place form gets matching positions
+        int f = *rc::gen::weightedElement<int>({{8, 0}, {2, 1}, {2, 2}, {1, 3}, {2, 4}});
+        v[P_JUNK] = (v[P_JUNK] & ~(7ull << 40)) | ((uint64_t)f << 40);
+        if (f == 2) { if (v[P_SC] >= (1ull << 32)) v[P_SC] = 3; v[P_SA] = v[P_SC]; for (int k = 0; k < 8; k++) v[P_IA + k] = v[P_IC + k]; }
         return v;
     });
 }
